@@ -49,9 +49,32 @@ def classify_max(e: ast.AST) -> Optional[str]:
     return None
 
 
-def channels(f: Func) -> Tuple[List[Aff], Dict[str, str]]:
+def lexmax_component(e: ast.AST, i: int) -> Optional[Aff]:
+    """component i of `max((a(t), b(t)) for t in ..)`: the maximum of tuples is
+    lexicographic, so component 0 is the maximum of a, but component 1 is b at the arg-max
+    of a -- only *some* value of b, bounded by its maximum (symbol L<kind>)"""
+    if isinstance(e, ast.Call) and src(e.func) == 'max' and len(e.args) == 1 and \
+            isinstance(e.args[0], (ast.GeneratorExp, ast.ListComp)) and \
+            isinstance(e.args[0].elt, ast.Tuple) and 0 <= i < len(e.args[0].elt.elts):
+        import copy
+        one = copy.copy(e)
+        g = copy.copy(e.args[0])
+        g.elt = e.args[0].elt.elts[i]
+        one.args = [g]
+        k = classify_max(one)
+        if k is None:
+            return None
+        return Aff.sym(k) if i == 0 else Aff.sym('L' + k)
+    return None
+
+
+def channels(f: Func, index: Optional[RepoIndex] = None) -> Tuple[List[Aff], Dict[str, str]]:
     """affine forms of the elements of the np.array([...]) a function returns"""
-    w = walk_function(f.node)
+    if index is not None:
+        from ..view import view
+        w = view(index, f)[1]
+    else:
+        w = walk_function(f.node)
     env: Dict[str, Aff] = {}
     origins: Dict[str, str] = {}
     for name, ds in w.defs.items():
@@ -73,6 +96,35 @@ def channels(f: Func) -> Tuple[List[Aff], Dict[str, str]]:
                 _depth[0] += 1
                 try:
                     return aff_of(d[1], leaf)
+                except NonAffine:
+                    return None
+                finally:
+                    _depth[0] -= 1
+            if d is not None and d[0] == 'unpack':
+                val, i = d[1]
+                val = w.expand(val)
+                lm = lexmax_component(val, i)
+                if lm is not None:
+                    return lm
+                if isinstance(val, (ast.Tuple, ast.List)) and i < len(val.elts):
+                    _depth[0] += 1
+                    try:
+                        return aff_of(val.elts[i], leaf)
+                    except NonAffine:
+                        return None
+                    finally:
+                        _depth[0] -= 1
+        if isinstance(e, ast.Subscript) and isinstance(e.slice, ast.Constant) and \
+                isinstance(e.slice.value, int):
+            base = w.expand(e.value)
+            lm = lexmax_component(base, e.slice.value)
+            if lm is not None:
+                return lm
+            if isinstance(base, (ast.Tuple, ast.List)) and \
+                    -len(base.elts) <= e.slice.value < len(base.elts) and _depth[0] < 6:
+                _depth[0] += 1
+                try:
+                    return aff_of(base.elts[e.slice.value], leaf)
                 except NonAffine:
                     return None
                 finally:
@@ -124,6 +176,13 @@ def facts_tsc() -> Facts:
     F.add_ge(S('S'), 1)
     F.add_ge(S('T'), 0)
     F.add_ge(S('C'), 0)
+    # components of a lexicographic maximum: some value of the quantity, at most its maximum
+    F.add_ge(S('LS'), 1)
+    F.add_le(S('LS'), S('S'))
+    F.add_ge(S('LC'), 0)
+    F.add_le(S('LC'), S('C'))
+    F.add_ge(S('LT'), 0)
+    F.add_le(S('LT'), S('T'))
     return F
 
 
@@ -132,8 +191,8 @@ def per_object_bounds(index: RepoIndex, rep, rule: str) -> None:
     for pair in ('default', 'no_overlap'):
         fs = index.func(REPR, f'{pair}_grid_object_representation_space')
         fc = index.func(REPR, f'{pair}_grid_object_representation_convert')
-        sp, _ = channels(fs)
-        cv, _ = channels(fc)
+        sp, _ = channels(fs, index)
+        cv, _ = channels(fc, index)
         rep.check(len(sp) == len(cv) == 3, rule, REPR, fc.name, fc.node.lineno,
                   f'{len(sp)} bounds, {len(cv)} channels',
                   f'{pair}: space has {len(sp)} channels, convert {len(cv)}', f'{pair} arity')
@@ -142,9 +201,9 @@ def per_object_bounds(index: RepoIndex, rep, rule: str) -> None:
             hi_ok = prove_ge0(b - c, F)
             wit = None
             if not hi_ok:
-                wit = find_counterexample(b - c, F, ['t', 's', 'c', 'T', 'S', 'C'], 0, 4)
+                wit = find_counterexample(b - c, F, ['t', 's', 'c', 'T', 'S', 'C', 'LS', 'LC', 'LT'], 0, 4)
             if not lo_ok:
-                wit = find_counterexample(c, F, ['t', 's', 'c', 'T', 'S', 'C'], 0, 4)
+                wit = find_counterexample(c, F, ['t', 's', 'c', 'T', 'S', 'C', 'LS', 'LC', 'LT'], 0, 4)
             if lo_ok and hi_ok:
                 rep.holds(rule, f'{REPR}:{fc.name}:{fc.node.lineno}',
                           f'{pair} channel {i}: 0 <= {c} <= {b}')
